@@ -18,9 +18,11 @@ TECHNIQUE = ('runtime post-condition monitors: peaks recomputed from the monitor
              'refinement search for the object API, defining sums for the energy spectra')
 RULE = ('cases = calls of pseudo_/true_response_spectra, the two energy spectra and AccSignal spectrum generation/reads on records '
         'of 2..400 samples (14 shape classes, float64/float32/int64/list containers) x dt (nice, 1/k, log-uniform, dyadic) x period '
-        'lists of 1..8 entries with/without a leading 0, T/dt in [0.2,300] with a third in [4,8] and the exact values 6*dt, its '
+        'lists of 1..8 entries (5%: 31..256 entries at and around powers of two) with/without a leading 0, T/dt in [0.2,300] with a third in [4,8] and the exact values 6*dt, its '
         'float neighbours and dyadic pairs such as dt=0.25,T=1.5; integer-valued period containers; xi in {0,.05,.3,.9,U(0,1)}; '
-        'min_dt_ratio in {1,2,4,8}; object histories (lazy read, explicit regeneration with other ratio/xi/periods, value changes). '
+        'min_dt_ratio in {1,2,4,8}; object histories (lazy read, explicit regeneration with other ratio/xi/periods, value changes); '
+        'ratio sweeps (one object, min_dt_ratio 1..8 in random order, first period below 2.4*dt so that every factor is really used, half of the '
+        'steps drawn where dt/(dt/k) != k in floating point). '
         'distinct = digest of all inputs; non-trivial = record not identically zero.')
 ASSUMPTIONS = ['the response series used to recompute the peaks is the library\'s own (decided separately by C01)',
                'object API: period lists are ascending (T_min = first non-zero entry, as the code reads it)',
@@ -339,8 +341,13 @@ XIS = [0.0, 0.05, 0.3, 0.9]
 DYADIC = [(0.25, 1.5), (0.125, 0.75), (0.5, 3.0), (0.0625, 0.375), (0.03125, 0.1875), (1.0, 6.0), (2.0, 12.0)]
 
 
-def draw_periods(rng, dt):
-    P = int(rng.integers(1, 9))
+MANY = [31, 32, 33, 63, 64, 65, 100, 127, 128, 129, 192, 256]
+
+
+def draw_periods(rng, dt, many=False):
+    # period-list LENGTH is an input dimension of its own: besides 1..8, lengths at and around the block sizes a vectorised
+    # implementation might use (powers of two and their neighbours)
+    P = int(MANY[int(rng.integers(len(MANY)))]) if many else int(rng.integers(1, 9))
     r = rng.random(P)
     ratios = np.where(r < 0.34, rng.uniform(4, 8, size=P), 10 ** rng.uniform(np.log10(0.2), np.log10(300), size=P))
     per = ratios * dt
@@ -383,7 +390,12 @@ def draw_case(rng):
         dt = gen.dt(rng)
         if rng.random() < 0.1:      # extreme time bases
             dt = float(10 ** (rng.uniform(-9, -3) if rng.random() < 0.6 else rng.uniform(0, 3)))
-        per = draw_periods(rng, dt)
+        many = rng.random() < 0.05
+        if many and n > 120:
+            x, n = x[:120], 120
+        per = draw_periods(rng, dt, many=many)
+        if many:
+            cls += '/many-periods'
     xi = float(XIS[int(rng.integers(len(XIS)))]) if rng.random() < 0.7 else float(rng.uniform(0, 1))
     return x, cls, dt, per, xi
 
@@ -466,7 +478,23 @@ def drive_object(ctx, eqsig, rng, cont, dt, per, xi):
     if per[0] == 0 and len(per) < 2:
         per = np.concatenate([per, [dt * 7.3]])
     ratio = int(rng.choice([1, 2, 4, 8]))
-    mode = int(rng.integers(4))
+    mode = int(rng.integers(5))
+    if mode == 4:
+        # sweep: one object, every min_dt_ratio 1..8 in random order, first period short enough that the step rule really
+        # selects that factor, and (half of the time) a step for which dt/(dt/k) != k in floating point
+        k0 = int(rng.integers(2, 9))
+        if rng.random() < 0.5:
+            dt_new = gen.awkward_dt(rng, k0)
+            per, dt = per / dt * dt_new, dt_new
+        pp = per[per > 0]
+        pp = pp * (rng.uniform(0.5, 2.4) * dt / pp[0])
+        pp = pp[pp <= 300 * dt]      # the 1e-9 relations of this monitor are justified for T/dt <= 300 only (rounding, see C01 K1)
+        sig = eqsig.AccSignal(cont, dt, response_times=pp)
+        for r_ in rng.permutation([1, 2, 3, 4, 5, 6, 7, 8]):
+            sig.gen_response_spectrum(xi=xi, min_dt_ratio=int(r_))
+            ctx.keyset('object (min_dt_ratio, int(dt/(dt/r))==r)').add((int(r_), int(dt / (dt / int(r_))) == int(r_)))
+        sig.s_a
+        return
     if mode == 0:      # explicit response_times at construction, lazy read (default ratio 4, xi .05)
         sig = eqsig.AccSignal(cont, dt, response_times=per)
         sig.gen_response_spectrum()
